@@ -63,6 +63,7 @@ def run(tier):
         "model": {"cfgs": [m.cmd.split()[-3].split("/")[-1] for m in ms],
                   "constants": "2 accounts x 2 pools, deposits / targets around every cost, every corruption class, aborts; complete reachable state space up to the commit bound"},
         "replay": {k: rr[k] for k in ("states", "edges", "paths", "covered", "replayed", "steps", "full", "mismatches")},
+        "replay_graph": rr["histogram"],
         "trace_validation": {k: tt[k] for k in ("traces", "events", "accepted", "rejected", "suspect")},
         "driver_counts": tt["counts"],
         "evaluations": rr["steps"] + tt["events"], "distinct_nontrivial": rr["distinct"] + tt["traces"],
